@@ -155,7 +155,7 @@ Qed.
 (* ------------------------------------------------------------------ "the right mount" for an item *)
 Definition dget (key : bytes) (it : item) : bytes := data_get key (parse_data (it_data it)).
 Definition right_it (it : item) (tab : list kline) (k : kline) : bool :=
-  if it_refresh it then shows_source tab k (it_src it) (it_ty it)
+  if it_imp it then shows_source tab k (it_src it) (it_ty it)
   else beq (k_fstype k) overlay
        && beq (sopt k (bs "lowerdir")) (dget (bs "lowerdir") it)
        && beq (sopt k (bs "upperdir")) (dget (bs "upperdir") it)
@@ -163,7 +163,7 @@ Definition right_it (it : item) (tab : list kline) (k : kline) : bool :=
 
 Lemma right_it_stable it tab ext k : In k tab -> right_it it (tab ++ ext) k = right_it it tab k.
 Proof.
-  intros Hk. unfold right_it, shows_source. destruct (it_refresh it); [|reflexivity].
+  intros Hk. unfold right_it, shows_source. destruct (it_imp it); [|reflexivity].
   destruct (is_bind_type (it_ty it)); [|reflexivity].
   rewrite before_line_app_in; [reflexivity|]. now exists k.
 Qed.
@@ -174,7 +174,7 @@ Proof.
   destruct (beq ty (bs "rbind")); [reflexivity|]. destruct (beq ty (bs "remount")); reflexivity.
 Qed.
 
-Definition item_shape (it : item) : Prop := it_refresh it = false -> it_ty it = overlay.
+Definition item_shape (it : item) : Prop := it_imp it = false -> it_ty it = overlay.
 
 (* the line a successful mount of [it] appends is right, given fresh ids *)
 Lemma new_line_right f ks it ks1 :
@@ -192,7 +192,7 @@ Proof.
   pose proof (mount_flags_noslave (it_ty it)) as Hs.
   destruct (kmount_new _ _ _ _ _ _ _ _ Hk Hr Hs) as (line & copies & Et & Emp & Eid & Hlt & Hc & Hbind & Hnb).
   exists line, copies. split; [exact Et|]. split; [exact Emp|].
-  unfold right_it. destruct (it_refresh it) eqn:Erf.
+  unfold right_it. destruct (it_imp it) eqn:Erf.
   - unfold shows_source. rewrite is_bind_flags.
     destruct (has_flag (mount_flags (it_ty it)) MS_BIND) eqn:Eb.
     + destruct (Hbind eq_refl) as (cv & Ecv & ->). rewrite Et.
@@ -220,69 +220,27 @@ Proof.
     cbv iota. now rewrite !beq_refl.
 Qed.
 
-(* ------------------------------------------------------------------ along the trace *)
-Lemma gtrace_right T ks its ops ks' st :
-  gtrace ks its ops ks' st -> st = TDone ->
-  idsok ks -> ks_nextid ks' < id_limit ->
-  (forall it, In it its -> In (it_tgt it) (mps ks) ->
-     exists k, In k (ks_tab ks) /\ k_mp k = it_tgt it /\ right_it it (ks_tab ks) k = true) ->
-  rbind_clear_items its T -> (forall it, In it its -> In (it_tgt it) T) ->
-  NoDup (map it_tgt its) -> Forall item_shape its ->
-  (exists ext, ks_tab ks' = ks_tab ks ++ ext) /\ ks_nextid ks <= ks_nextid ks'
-  /\ forall it, In it its ->
-       exists k, In k (ks_tab ks') /\ k_mp k = it_tgt it /\ right_it it (ks_tab ks') k = true.
+(* ------------------------------------------------------------------ top_at under appending *)
+Lemma top_at_app tab ext p :
+  top_at (tab ++ ext) p = match top_at ext p with Some k => Some k | None => top_at tab p end.
 Proof.
-  induction 1 as [ks|ks its|ks it its ops ks' st Hin Hg IH|ks it its f ks1 ops ks' st Hn Hk Hg IH|ks it its f Hn Hk];
-    intros Hd Hids Hlim Hpre Hrb HT Hnd Hsh; try discriminate.
-  - split; [exists []; now rewrite app_nil_r|]. split; [lia|]. intros it [].
-  - (* skipped: the line is there already *)
-    inversion Hnd as [|? ? Hnd1 Hnd2]; subst. inversion Hsh as [|? ? Hsh1 Hsh2]; subst.
-    destruct (IH eq_refl Hids Hlim) as ((ext & Eext) & Hle & Hall); auto.
-    { intros it' Hi'. apply Hpre. now right. }
-    { intros it' t' Hi'. apply Hrb. now right. }
-    { intros it' Hi'. apply HT. now right. }
-    split; [now exists ext|]. split; [exact Hle|].
-    intros it' [<-|Hi']; [|now apply Hall].
-    destruct (Hpre it (or_introl eq_refl) Hin) as (k & Hk1 & Hk2 & Hk3).
-    exists k. rewrite Eext. split; [apply in_or_app; now left|]. split; [exact Hk2|].
-    now rewrite right_it_stable.
-  - (* mounted *)
-    inversion Hnd as [|? ? Hnd1 Hnd2]; subst. inversion Hsh as [|? ? Hsh1 Hsh2]; subst.
-    destruct (kmount_idsok _ _ _ _ _ _ _ _ Hk Hids) as [Hids1 Hle1].
-    assert (Hstep : exists ext1, ks_tab ks1 = ks_tab ks ++ ext1).
-    { unfold kmount_it in Hk. destruct (has_flag (mount_flags (it_ty it)) MS_REMOUNT) eqn:Hr.
-      - unfold kmount in Hk. rewrite Hr in Hk. destruct (top_at (ks_tab ks) (it_tgt it)); [|discriminate].
-        injection Hk as <-. exists []. now rewrite app_nil_r.
-      - destruct (kmount_new _ _ _ _ _ _ _ _ Hk Hr (mount_flags_noslave _)) as (line & copies & Et & _).
-        now exists (line :: copies). }
-    destruct Hstep as (ext1 & Eext1).
-    (* the remaining items: whatever of theirs is mounted now was mounted before *)
-    assert (Hpre1 : forall it', In it' its -> In (it_tgt it') (mps ks1) ->
-              exists k, In k (ks_tab ks1) /\ k_mp k = it_tgt it' /\ right_it it' (ks_tab ks1) k = true).
-    { intros it' Hi' Hm1.
-      assert (Hm0 : In (it_tgt it') (mps ks)).
-      { unfold kmount_it in Hk. rewrite (kmount_mps _ _ _ _ _ _ _ _ Hk) in Hm1.
-        apply in_app_or in Hm1 as [Hm1|Hm1]; [exact Hm1|]. exfalso.
-        assert (Hne : it_tgt it <> it_tgt it').
-        { intros E. apply Hnd1. rewrite E. now apply in_map. }
-        pose proof (delta_count it (mps ks) (it_tgt it')
-                      (Hrb it (it_tgt it') (or_introl eq_refl) (HT it' (or_intror Hi')))) as Hd0.
-        apply cntl_in in Hm1. apply beq_false in Hne. rewrite Hne in Hd0. lia. }
-      destruct (Hpre it' (or_intror Hi') Hm0) as (k & Hk1 & Hk2 & Hk3).
-      exists k. rewrite Eext1. split; [apply in_or_app; now left|]. split; [exact Hk2|].
-      now rewrite right_it_stable. }
-    destruct (IH eq_refl Hids1 Hlim Hpre1) as ((ext & Eext) & Hle & Hall); auto.
-    { intros it' t' Hi'. apply Hrb. now right. }
-    { intros it' Hi'. apply HT. now right. }
-    split; [exists (ext1 ++ ext); now rewrite Eext, Eext1, app_assoc|]. split; [lia|].
-    intros it' [<-|Hi']; [|now apply Hall].
-    destruct (new_line_right _ _ _ _ Hk Hn Hsh1 Hids ltac:(lia)) as (line & copies & Et & Emp & Hright).
-    exists line. rewrite Eext. split; [apply in_or_app; left; rewrite Et; apply in_or_app; right; now left|].
-    split; [exact Emp|]. rewrite right_it_stable; [exact Hright|].
-    rewrite Et. apply in_or_app. right. now left.
+  unfold top_at. rewrite fold_left_app.
+  generalize (fold_left (fun best k => if beq (k_mp k) p then Some k else best) tab None).
+  induction ext as [|x ext IH]; intros acc; cbn [fold_left].
+  - reflexivity.
+  - rewrite IH. rewrite (IH (if beq (k_mp x) p then Some x else None)).
+    destruct (fold_left _ ext None); [reflexivity|]. destruct (beq (k_mp x) p); reflexivity.
 Qed.
 
-(* ------------------------------------------------------------------ uniqueness from the count *)
+Lemma top_at_notin ext p : ~ In p (map k_mp ext) -> top_at ext p = None.
+Proof.
+  intros H. apply mounted_at_false in H. unfold mounted_at in H.
+  destruct (top_at ext p); [discriminate|reflexivity].
+Qed.
+
+Lemma top_at_stable tab ext p : ~ In p (map k_mp ext) -> top_at (tab ++ ext) p = top_at tab p.
+Proof. intros H. now rewrite top_at_app, (top_at_notin _ _ H). Qed.
+
 Lemma top_at_some tab p k : top_at tab p = Some k -> In k tab /\ k_mp k = p.
 Proof.
   unfold top_at.
@@ -295,14 +253,113 @@ Proof.
   intros H. apply G in H as [H|H]; [discriminate|exact H].
 Qed.
 
-Lemma count_one_unique tab p k k' : count_at tab p = 1%nat ->
-  In k tab -> k_mp k = p -> In k' tab -> k_mp k' = p -> k = k'.
+Lemma prefix_self_false t : prefixb (t ++ [sl]) t = false.
 Proof.
-  unfold count_at. intros Hc Hk Hp Hk' Hp'.
-  assert (H1 : In k (filter (fun k0 => beq (k_mp k0) p) tab)) by (apply filter_In; split; [exact Hk|now apply beq_true]).
-  assert (H2 : In k' (filter (fun k0 => beq (k_mp k0) p) tab)) by (apply filter_In; split; [exact Hk'|now apply beq_true]).
-  destruct (filter (fun k0 => beq (k_mp k0) p) tab) as [|z [|z' r]]; try discriminate.
-  destruct H1 as [<-|[]]. destruct H2 as [<-|[]]. reflexivity.
+  destruct (prefixb (t ++ [sl]) t) eqn:E; [|reflexivity].
+  apply prefixb_spec in E as (r & E). apply (f_equal (@length _)) in E.
+  rewrite !app_length in E. cbn in E. lia.
+Qed.
+
+(* the new line is the top line at its target *)
+Lemma new_line_top f ks it ks1 line copies :
+  kmount_it f ks it = KOk ks1 -> ks_tab ks1 = ks_tab ks ++ line :: copies -> k_mp line = it_tgt it ->
+  top_at (ks_tab ks1) (it_tgt it) = Some line
+  /\ map k_mp (line :: copies) = delta (mount_flags (it_ty it)) (it_src it) (it_tgt it) (mps ks).
+Proof.
+  intros Hk Et Emp. unfold kmount_it in Hk.
+  pose proof (kmount_mps _ _ _ _ _ _ _ _ Hk) as E. unfold mps in E at 1. rewrite Et, map_app in E.
+  apply app_inv_head in E. split; [|exact E].
+  pose proof (delta_count it (mps ks) (it_tgt it) (fun _ => prefix_self_false _)) as Hd.
+  rewrite beq_refl, <- E in Hd. cbn [map] in Hd. rewrite Emp in Hd.
+  change (it_tgt it :: map k_mp copies) with ([it_tgt it] ++ map k_mp copies) in Hd.
+  rewrite cntl_app in Hd. unfold cntl at 1 in Hd. cbn [filter] in Hd. rewrite beq_refl in Hd. cbn [length] in Hd.
+  assert (Hn : ~ In (it_tgt it) (map k_mp copies)).
+  { intros Hin. apply cntl_in in Hin. lia. }
+  rewrite Et. change (line :: copies) with ([line] ++ copies). rewrite app_assoc.
+  rewrite (top_at_stable _ _ _ Hn), top_at_app. unfold top_at at 1. cbn [fold_left].
+  rewrite Emp, beq_refl. reflexivity.
+Qed.
+
+(* ------------------------------------------------------------------ along the trace *)
+Lemma gtrace_right T ks its ops ks' st :
+  gtrace ks its ops ks' st -> st = TDone ->
+  idsok ks -> ks_nextid ks' < id_limit ->
+  (forall it, In it its -> In (it_tgt it) (mps ks) ->
+     exists k, top_at (ks_tab ks) (it_tgt it) = Some k /\ right_it it (ks_tab ks) k = true) ->
+  rbind_clear_items its T -> (forall it, In it its -> In (it_tgt it) T) ->
+  NoDup (map it_tgt its) -> Forall item_shape its ->
+  (exists ext, ks_tab ks' = ks_tab ks ++ ext
+     /\ forall t, In t T -> ~ In t (map it_tgt its) -> ~ In t (map k_mp ext))
+  /\ ks_nextid ks <= ks_nextid ks'
+  /\ forall it, In it its ->
+       exists k, top_at (ks_tab ks') (it_tgt it) = Some k /\ right_it it (ks_tab ks') k = true.
+Proof.
+  induction 1 as [ks|ks its|ks it its ops ks' st Hin Hg IH|ks it its f ks1 ops ks' st Hn Hk Hg IH|ks it its f Hn Hk];
+    intros Hd Hids Hlim Hpre Hrb HT Hnd Hsh; try discriminate.
+  - split; [exists []; split; [now rewrite app_nil_r|intros ? ? ? []]|]. split; [lia|]. intros it [].
+  - (* skipped: the line is there already and stays the top one *)
+    inversion Hnd as [|? ? Hnd1 Hnd2]; subst. inversion Hsh as [|? ? Hsh1 Hsh2]; subst.
+    destruct (IH eq_refl Hids Hlim) as ((ext & Eext & Hext) & Hle & Hall); auto.
+    { intros it' Hi'. apply Hpre. now right. }
+    { intros it' t' Hi'. apply Hrb. now right. }
+    { intros it' Hi'. apply HT. now right. }
+    split.
+    { exists ext. split; [exact Eext|]. intros t Ht Hnot. apply Hext; [exact Ht|].
+      intros Hin'. apply Hnot. now right. }
+    split; [exact Hle|].
+    intros it' [<-|Hi']; [|now apply Hall].
+    destruct (Hpre it (or_introl eq_refl) Hin) as (k & Hk1 & Hk3).
+    exists k. rewrite Eext.
+    rewrite (top_at_stable _ _ _ (Hext _ (HT it (or_introl eq_refl)) Hnd1)).
+    split; [exact Hk1|]. rewrite right_it_stable; [exact Hk3|]. now apply top_at_some in Hk1.
+  - (* mounted *)
+    inversion Hnd as [|? ? Hnd1 Hnd2]; subst. inversion Hsh as [|? ? Hsh1 Hsh2]; subst.
+    destruct (kmount_idsok _ _ _ _ _ _ _ _ Hk Hids) as [Hids1 Hle1].
+    assert (Hstep : exists ext1, ks_tab ks1 = ks_tab ks ++ ext1).
+    { unfold kmount_it in Hk. destruct (has_flag (mount_flags (it_ty it)) MS_REMOUNT) eqn:Hr.
+      - unfold kmount in Hk. rewrite Hr in Hk. destruct (top_at (ks_tab ks) (it_tgt it)); [|discriminate].
+        injection Hk as <-. exists []. now rewrite app_nil_r.
+      - destruct (kmount_new _ _ _ _ _ _ _ _ Hk Hr (mount_flags_noslave _)) as (line & copies & Et & _).
+        now exists (line :: copies). }
+    destruct Hstep as (ext1 & Eext1).
+    assert (Edelta : map k_mp ext1 = delta (mount_flags (it_ty it)) (it_src it) (it_tgt it) (mps ks)).
+    { pose proof Hk as Hk0. unfold kmount_it in Hk0.
+      pose proof (kmount_mps _ _ _ _ _ _ _ _ Hk0) as E. unfold mps in E at 1.
+      rewrite Eext1, map_app in E. now apply app_inv_head in E. }
+    (* a T-point other than this target gets no new line *)
+    assert (Hclear1 : forall t, In t T -> t <> it_tgt it -> ~ In t (map k_mp ext1)).
+    { intros t Ht Hne Hin1. rewrite Edelta in Hin1. apply cntl_in in Hin1.
+      pose proof (delta_count it (mps ks) t (Hrb it t (or_introl eq_refl) Ht)) as Hd0.
+      assert (E : beq (it_tgt it) t = false) by (apply beq_false; congruence).
+      rewrite E in Hd0. lia. }
+    assert (Hpre1 : forall it', In it' its -> In (it_tgt it') (mps ks1) ->
+              exists k, top_at (ks_tab ks1) (it_tgt it') = Some k /\ right_it it' (ks_tab ks1) k = true).
+    { intros it' Hi' Hm1.
+      assert (Hne : it_tgt it' <> it_tgt it).
+      { intros E. apply Hnd1. rewrite <- E. now apply in_map. }
+      pose proof (Hclear1 _ (HT it' (or_intror Hi')) Hne) as Hno.
+      assert (Hm0 : In (it_tgt it') (mps ks)).
+      { unfold mps in Hm1. rewrite Eext1, map_app in Hm1.
+        apply in_app_or in Hm1 as [Hm1|Hm1]; [exact Hm1|contradiction]. }
+      destruct (Hpre it' (or_intror Hi') Hm0) as (k & Hk1 & Hk3).
+      exists k. rewrite Eext1, (top_at_stable _ _ _ Hno).
+      split; [exact Hk1|]. rewrite right_it_stable; [exact Hk3|]. now apply top_at_some in Hk1. }
+    destruct (IH eq_refl Hids1 Hlim Hpre1) as ((ext & Eext & Hext) & Hle & Hall); auto.
+    { intros it' t' Hi'. apply Hrb. now right. }
+    { intros it' Hi'. apply HT. now right. }
+    split.
+    { exists (ext1 ++ ext). split; [now rewrite Eext, Eext1, app_assoc|].
+      intros t Ht Hnot. rewrite map_app. intros Hin'. apply in_app_or in Hin' as [Hin'|Hin'].
+      - apply (Hclear1 t Ht); [|exact Hin']. intros E. apply Hnot. left. now symmetry.
+      - apply (Hext t Ht); [|exact Hin']. intros Hin2. apply Hnot. now right. }
+    split; [lia|].
+    intros it' [<-|Hi']; [|now apply Hall].
+    destruct (new_line_right _ _ _ _ Hk Hn Hsh1 Hids ltac:(lia)) as (line & copies & Et & Emp & Hright).
+    destruct (new_line_top _ _ _ _ _ _ Hk Et Emp) as [Htop _].
+    exists line. rewrite Eext.
+    rewrite (top_at_stable _ _ _ (Hext _ (HT it (or_introl eq_refl)) Hnd1)).
+    split; [exact Htop|]. rewrite right_it_stable; [exact Hright|].
+    rewrite Et. apply in_or_app. right. now left.
 Qed.
 
 (* ------------------------------------------------------------------ the overlay data string *)
